@@ -165,6 +165,26 @@ def null_fill(ctx, P, scope, rule="NULL-FILL", tus=None):
                                     ctx.ob(rule, "%s|zero-test|%s@%d" % (fn2.name, nm2.split(":")[-1].lstrip("."), kz), False, tu.loc(x2),
                                            "`%s` tests an id against 0: id 0 is a valid id and TSK_NULL (-1) means none" % estr(x2))
                                     kz += 1
+        for fn2 in tu.funcs.values():
+            if fn2.body is None or not scope(key, fn2.name):
+                continue
+            nullcmp = set()
+            for x2 in walk(fn2.body):
+                if x2.k == "BinaryOperator" and x2.op in ("==", "!=", "<", ">", ">=", "<="):
+                    for a, b in ((x2.kids[0], x2.kids[1]), (x2.kids[1], x2.kids[0])):
+                        aa = strip(a)
+                        if estr(b) in ("TSK_NULL", "-1") and aa is not None and aa.k == "DeclRefExpr" and (aa.ty or "") in ("tsk_id_t", "const tsk_id_t"):
+                            nullcmp.add(aa.ref)
+            kz = 0
+            for x2 in walk(fn2.body):
+                if x2.k == "BinaryOperator" and x2.op in (">", "<=", "==", "!="):
+                    for a, b in ((x2.kids[0], x2.kids[1]), (x2.kids[1], x2.kids[0])):
+                        aa = strip(a)
+                        if const_int(b) == 0 and estr(b) == "0" and aa is not None and aa.k == "DeclRefExpr" and aa.ref in nullcmp:
+                            n += 1
+                            ctx.ob(rule, "%s|zero-test|%s@%d" % (fn2.name, aa.ref, kz), False, tu.loc(x2),
+                                   "`%s` tests the id `%s` against 0 although the same function treats TSK_NULL as 'none': id 0 is a valid id" % (estr(x2), aa.ref))
+                            kz += 1
         for nm, (fn, x) in sorted(nulls.items()):
             if nm not in fills or not scope(key, fn.name):
                 continue
